@@ -114,8 +114,8 @@ def spelling_enumeration(tier, seed):
         except Exception:
             return cul, {'error': (p.stdout + p.stderr)[-500:]}, time.time() - t0
     out = []
-    with ThreadPoolExecutor(max_workers=2) as ex:
-        for cul, res, dt in ex.map(run, ['english', 'chinese']):
+    with ThreadPoolExecutor(max_workers=3) as ex:
+        for cul, res, dt in ex.map(run, ['english', 'chinese', 'german']):
             name = f'spelling/{cul}'
             if 'error' in res:
                 out.append(dict(name=name, kind='closed', verdict='unknown', detail=res['error']))
